@@ -120,7 +120,32 @@ func buildConfig(c Case) (*schedx.Config, *progs.Prog, error) {
 		if strings.HasPrefix(c.Cache, "subset:") {
 			fmt.Sscanf(c.Cache, "subset:%d", &mask)
 		}
+		// kv:<mask>  only the full snapshots selected by mask (holes in the snapshot sequence: pruned or evicted files)
+		// kvo:<mask> the same + every cached output file
+		var kvMask uint64
+		kvMode := ""
+		if strings.HasPrefix(c.Cache, "kv:") {
+			kvMode = "kv"
+			fmt.Sscanf(c.Cache, "kv:%d", &kvMask)
+		} else if strings.HasPrefix(c.Cache, "kvo:") {
+			kvMode = "kvo"
+			fmt.Sscanf(c.Cache, "kvo:%d", &kvMask)
+		}
+		kvIdx := 0
 		for i, n := range kept {
+			if kvMode != "" {
+				isKV := strings.Contains(n, "/states/") && strings.Contains(n, ".kv")
+				switch {
+				case isKV:
+					if kvMask&(1<<uint(kvIdx)) != 0 {
+						files[n] = sysrun.MustRead(dir, n)
+					}
+					kvIdx++
+				case kvMode == "kvo" && strings.Contains(n, "/outputs/"):
+					files[n] = sysrun.MustRead(dir, n)
+				}
+				continue
+			}
 			if mask&(1<<uint(i)) != 0 {
 				files[n] = sysrun.MustRead(dir, n)
 			}
@@ -368,6 +393,17 @@ func Run(ctx *core.Ctx) int {
 	pc := []string{"partials-seg0", "partials"}
 	add("twostages-0-0-0", 2, true, 1, 4, 4, w12, pc)
 	add("storemap-0-0", 2, true, 1, 6, 6, w12, pc)
+	// holes in the snapshot sequence of a 3-segment grid (a later full snapshot present, an earlier one pruned), with and
+	// without the cached outputs
+	for mask := 1; mask < 7; mask++ {
+		add("storemap-0-0", 2, true, 1, 6, 6, []int{2}, []string{fmt.Sprintf("kvo:%d", mask)})
+		if mask == 2 || ctx.Thorough() { // quick: only the middle snapshot present, one worker
+			add("storemap-0-0", 2, true, 1, 6, 6, []int{1}, []string{fmt.Sprintf("kv:%d", mask)})
+		}
+		if ctx.Thorough() {
+			add("storemap-0-0", 2, true, 1, 6, 6, []int{2}, []string{fmt.Sprintf("kv:%d", mask)})
+		}
+	}
 	// every store starts at or above the hand-off (the store stages only have NoOp units)
 	add("storemap-3-1", 2, true, 1, 2, -1, w12, []string{"empty"})
 	add("storemap-3-1", 2, true, 1, 3, -1, w12, []string{"empty"})
@@ -389,14 +425,14 @@ func Run(ctx *core.Ctx) int {
 	// already has the full snapshot, i.e. in which the squasher's partial-vs-full load race is actually run (both outcomes)
 	sweeps := []sweep{{"storemap-0-0", 5, 6, 12, 10}, {"samestage-1-7-3", 4, 9, 11, -1}}
 	if ctx.Thorough() {
-		sweeps = append(sweeps, sweep{"twostages-0-0-0", 5, 2, 6, 5}, sweep{"index", 4, 5, 9, 8})
+		sweeps = append(sweeps, sweep{"twostages-0-0-0", 5, 2, 6, 5}, sweep{"index", 4, 5, 9, 8}, sweep{"samestage-0-3-0", 4, 9, 11, -1})
 	}
 	var small []Case
 	if ctx.Args["case"] != "" || ctx.Args["only"] != "" {
 		sweeps = nil
 	}
 	for si, sw := range sweeps {
-		prod := sw.prog != "samestage-1-7-3"
+		prod := !strings.HasPrefix(sw.prog, "samestage")
 		names, _, err := c07.Universe(c07.Shape{Prog: sw.prog, Seg: sw.seg, Prod: prod, Start: sw.start, Stop: sw.stop, Final: sw.final})
 		if err != nil {
 			ctx.Violation(core.Failf("harness:universe", "%v", err), sw.prog, 0)
